@@ -783,7 +783,17 @@ impl<'a> GeneratorState<'a> {
                                     }
                                 }
                             } else {
-                                let e = self.generate_expr(sub, pos, false, false)?;
+                                // cctmp is wanted for the program's Y (the slot reserved above, filled
+                                // once the subscript is known): the subscript itself may not use it
+                                let reserved = dummy.is_some() && !self.tmp_in_use;
+                                if reserved {
+                                    self.tmp_in_use = true;
+                                }
+                                let e = self.generate_expr(sub, pos, false, false);
+                                if reserved {
+                                    self.tmp_in_use = false;
+                                }
+                                let e = e?;
                                 self.sub_output = Some(e.clone());
                                 e
                             }
